@@ -36,6 +36,8 @@ type Check struct {
 	Level string // exploration | fault_enumeration | model_checking
 	// Workers > 0: the check is run as that many worker *processes* (0 = in-process, -1 = NumCPU).
 	Workers int
+	// WorkerEnv (optional) returns extra environment variables for worker number shard of n.
+	WorkerEnv func(shard, n int) []string
 	// Prepare (optional) runs once in the parent before the workers start (e.g. builds the oracle cache).
 	Prepare func(c *Ctx) error
 	// Run enumerates the bounded space. It is called once per worker with c.Shard/c.NShards set.
@@ -122,6 +124,13 @@ func newCtx(id, tier string, seed int64) *Ctx {
 	return c
 }
 
+// WithTier returns a detached context of the given tier (used to regenerate another check's corpus).
+func (c *Ctx) WithTier(tier string) *Ctx {
+	n := newCtx(c.ID, tier, c.Seed)
+	n.Shard, n.NShards, n.Start, n.Budget = c.Shard, c.NShards, c.Start, c.Budget
+	return n
+}
+
 func (c *Ctx) Quick() bool    { return c.Tier != "thorough" }
 func (c *Ctx) Thorough() bool { return c.Tier == "thorough" }
 
@@ -176,13 +185,16 @@ func (c *Ctx) Nontrivial(key string) {
 	c.mu.Unlock()
 }
 
-func (c *Ctx) Rule(s string)             { c.rule = s }
-func (c *Ctx) Assume(s ...string)        { c.mu.Lock(); c.assume = append(c.assume, s...); c.mu.Unlock() }
+func (c *Ctx) Rule(s string)               { c.rule = s }
+func (c *Ctx) Assume(s ...string)          { c.mu.Lock(); c.assume = append(c.assume, s...); c.mu.Unlock() }
 func (c *Ctx) Set(k string, v interface{}) { c.mu.Lock(); c.extra[k] = v; c.mu.Unlock() }
-func (c *Ctx) Count(k string, n int)     { c.mu.Lock(); c.counters[k] += int64(n); c.mu.Unlock() }
-func (c *Ctx) States(n int)              { c.mu.Lock(); c.states += int64(n); c.mu.Unlock() }
-func (c *Ctx) Transitions(n int)         { c.mu.Lock(); c.trans += int64(n); c.mu.Unlock() }
-func (c *Ctx) Traces(n int)              { c.mu.Lock(); c.traces += int64(n); c.mu.Unlock() }
+
+// Extra returns a value stored with Set (in the parent: merged from the workers).
+func (c *Ctx) Extra(k string) interface{} { c.mu.Lock(); defer c.mu.Unlock(); return c.extra[k] }
+func (c *Ctx) Count(k string, n int)      { c.mu.Lock(); c.counters[k] += int64(n); c.mu.Unlock() }
+func (c *Ctx) States(n int)               { c.mu.Lock(); c.states += int64(n); c.mu.Unlock() }
+func (c *Ctx) Transitions(n int)          { c.mu.Lock(); c.trans += int64(n); c.mu.Unlock() }
+func (c *Ctx) Traces(n int)               { c.mu.Lock(); c.traces += int64(n); c.mu.Unlock() }
 
 // Sample keeps a few actual cases for the evidence file.
 func (c *Ctx) Sample(v interface{}) {
@@ -391,6 +403,9 @@ func runCheck(id, tier string) int {
 			go func(i int) {
 				defer wg.Done()
 				cmd := exec.Command(exe, "worker", id, tier, strconv.Itoa(i), strconv.Itoa(nw), outs[i])
+				if ch.WorkerEnv != nil {
+					cmd.Env = append(os.Environ(), ch.WorkerEnv(i, nw)...)
+				}
 				cmd.Stdout = os.Stderr
 				cmd.Stderr = &stderrs[i]
 				errs[i] = cmd.Run()
